@@ -42,6 +42,9 @@ func C05(r *core.Run) {
 	elementKinds(r)
 	labelIndependence(r)
 	refNameKeepsLast(r)
+	// option string values are rendered by an adaptation of prototext's escaper, which the .proto parser reads back
+	rules.VerbatimLoop(r, printRel+"/optionreflect", "prototextString", "google.golang.org/protobuf/internal/encoding/text", "appendString")
+	rules.VerbatimCopy(r, printRel+"/optionreflect", "indexNeedEscapeInString", "google.golang.org/protobuf/internal/encoding/text", "indexNeedEscapeInString")
 }
 
 // printerCoverage (R-COVER).
